@@ -69,6 +69,7 @@ type ClientScenario struct {
 	CloseAt    int64 // ticks; -1: harness closes after all calls returned
 	Horizon    int64 // ticks; calls with Tries<0 are cancelled by the harness here (0 = none)
 	FailWrites []int // indices of WriteTo calls that fail with an injected error
+	CloseErr   bool  // the connection's Close reports an error (and closes)
 	Bound      int
 	Rules      string // which rule groups the oracle enforces: any of "ABCDE..." see oracle
 }
@@ -80,6 +81,9 @@ func (s *ClientScenario) String() string {
 		fam = "v6"
 	}
 	fmt.Fprintf(&b, "%s %s T=%d n=%d cap=%d close=%d failwrites=%v calls=[", s.Name, fam, s.T, s.Tries, s.BufCap, s.CloseAt, s.FailWrites)
+	if s.CloseErr {
+		b.WriteString("(conn.Close reports an error) ")
+	}
 	for _, c := range s.Calls {
 		fmt.Fprintf(&b, "{id%d m%d start%d cancel%d dl%v after%d}", c.ID, c.Match, c.StartAt, c.CancelAt, c.Deadline, c.After)
 	}
@@ -219,6 +223,9 @@ func (s *ClientScenario) body(out **clientRun) func() {
 			respAtReturn: make([][]byte, len(s.Calls)), respNow: make([]func() []byte, len(s.Calls))}
 		*out = run
 		conn := NewConn(h)
+		if s.CloseErr {
+			conn.CloseErr = errInjectedClose
+		}
 		if len(s.FailWrites) > 0 {
 			conn.FailWrite = map[int]bool{}
 			for _, k := range s.FailWrites {
